@@ -404,6 +404,8 @@ func ExtraLayouts() []Layout {
 		{Name: "x_vfr_2000_4000", VideoTS: 90000, FrameDur: 3000, FrameDurs: []uint32{2000, 4000}, SegFrames: []int{60, 60, 60, 60}, AudioSegs: []int{94, 94, 94, 93}},
 		// subtitle segments that signal their sample size in tfhd and in trun
 		{Name: "x_text_both_sizes", VideoTS: 90000, FrameDur: 3000, SegFrames: []int{60, 60, 60, 60}, Text: true, TextBothSizes: true},
+		// representation ids with characters that are unusual in file names, and that differ in such a character only
+		{Name: "x_rep_ids", VideoTS: 90000, FrameDur: 3000, SegFrames: []int{60, 60, 60, 60}, AudioSegs: []int{94, 94, 94, 93}, VideoID: "V300:b", ExtraVideo: "V300_b"},
 		{Name: "x_two_video_grids", VideoTS: 90000, FrameDur: 3000, SegFrames: []int{60, 60, 60, 60}, ExtraVideo: "V8s", ExtraSegFrames: []int{240}, ExtraOwnAS: true, UseTime: true},
 	}
 }
